@@ -1053,6 +1053,8 @@ def _get_exposed_property_value(obj: Any, propname: str, only_exposed: bool = Tr
     If the requested property is not a @property or not exposed,
     an AttributeError is raised instead.
     """
+    if is_private_attribute(propname):
+        raise AttributeError("attempt to access private attribute '%s'" % propname)
     v = getattr(obj.__class__, propname)
     if inspect.isdatadescriptor(v):
         if v.fget and getattr(v.fget, "_pyroExposed", not only_exposed):
@@ -1066,6 +1068,8 @@ def _set_exposed_property_value(obj: Any, propname: str, value: Any, only_expose
     If the requested property is not a @property or not exposed,
     an AttributeError is raised instead.
     """
+    if is_private_attribute(propname):
+        raise AttributeError("attempt to access private attribute '%s'" % propname)
     v = getattr(obj.__class__, propname)
     if inspect.isdatadescriptor(v):
         pfunc = v.fget or v.fset or v.fdel
